@@ -134,6 +134,14 @@ func H_Stores() {
 	t := mptlib.NewTrie(db, version, nil)
 	ref := mptlib.NewRef()
 	mptlib.ApplySeed(t, ref, seed)
+	// the same trie object may move on to another version before the next changes (one change
+	// set then spans two versions)
+	if vp.Param("bump", 0) == 1 && vp.Choose("bump", 2) == 1 {
+		v2 := vp.Int64("version2")
+		vp.Assume(v2 != version)
+		t.SetVersion(util.Sequence(v2))
+		vp.Cover("C14.two-versions")
+	}
 	for i := 0; i < k; i++ {
 		p := mptlib.GenPath("p", alpha, lmax)
 		if vp.Choose("op", 2) == 0 {
